@@ -290,6 +290,12 @@ func (d *Director) Withdraw(via *Actor, wl *Wallet) error {
 	credit := w.Ref.GetAccountBalance(acc).Credit
 	stored, _ := w.Inner.GetAccountBalance(acc) // what a successful withdrawal settles, as stored
 	storedCredit := new(big.Int).Set(&stored.Credit)
+	if w.YS.FailPermille != nil && !d.faultWithdrawOnly {
+		// storage errors may have hit any earlier operation of this run: the model's credit is no
+		// longer exact (a keep-alive that failed was undone in the store), whether this withdrawal
+		// is above the minimum is decided from what is stored
+		credit = new(big.Int).Set(storedCredit)
+	}
 	dep := w.Dep.dep(acc)
 	total := new(big.Int).Add(credit, dep)
 	w.Set.mu.Lock()
